@@ -23,6 +23,8 @@ type findingDef struct {
 }
 
 var findingDefs = []findingDef{
+	{"KF-ORDER-DEPENDENT-CONTAINS", "polygon-contains-line/rect answers depend on the order in which the segment search reports hits (ringContainsSegment keeps the index of the first boundary segment the endpoint lies on, and its case analysis branches on it), so for self-touching rings with >= 17/33 points the answer differs between no index, r-tree and quadtree although the search itself reports exactly the same set; e.g. the 33-point 'comb' ring and the line (0,4)-(10,0)",
+		[]string{"C04:predicate-index-dependence", "C04:predicate-move-dependence"}},
 	{"KF-LINE-CONTAINS", "Line.ContainsLine (also reached by Line.ContainsRect/ContainsPoly for zero-area shapes) walks the receiver's segments and is wrong both ways: true when a later segment of the other line leaves the receiver mid-segment, false when a segment spans two collinear receiver segments or the receiver starts with a repeated vertex",
 		[]string{"*:contains-line-line", "*:contains-line-rect", "*:contains-line-poly"}},
 	{"KF-RING-CONTAINS-SEGMENT", "ringContainsSegment on a concave ring: returns true without a crossing test when a segment endpoint coincides with a ring vertex (false positives, e.g. across the mouth of a U), and false for a contained segment that touches a reflex vertex from inside or runs along an edge and continues inside (false negatives); propagates to polygon-contains-line/rect/polygon",
